@@ -206,19 +206,18 @@ class Grid(col.MutableSequence):
             raise TypeError('value must be a dict')
         for val in value.values():
             self._detect_or_validate(val)
-        if "id" in self._row[index]:
-            self._index.pop(self._row[index]['id'], None)
         self._row[index] = value
-        if "id" in value:
-            self._index[str(value["id"])] = value
+        # The replaced row may have been indexed (under str(id)), and another
+        # row may carry the same id: rebuild the index from the rows.
+        self.reindex()
 
     def __delitem__(self, index):
         '''
         Delete the row at index.
         '''
-        if "id" in self._row[index]:
-            self._index.pop(self._row[index]['id'], None)
         del self._row[index]
+        # index may be an integer or a slice; rebuild the index from what is left
+        self.reindex()
 
     def insert(self, index, value):
         '''
@@ -247,9 +246,7 @@ class Grid(col.MutableSequence):
     def extend(self, values):
         super(Grid, self).extend(values)  # Python 2 compatible :-(
         # super().extend(values)  # Python 3+ :-)
-        for item in self._row:
-            if "id" in item:
-                self._index[str(item["id"])] = item
+        self.reindex()
 
     def filter(self, filter, limit=0):
         '''
